@@ -66,7 +66,7 @@ func analyseResultLocks(c *core.Ctx, r *core.Report, report bool) *resultLocks {
 	for _, m := range methods {
 		ls := an.NewLockState(m)
 		states[m] = ls
-		recv := "$" + m.Params[0].Name()
+		recv := an.ParamDesc(m.Params[0])
 		for _, op := range ls.Acquires() {
 			if op.Base != recv {
 				continue
@@ -82,7 +82,7 @@ func analyseResultLocks(c *core.Ctx, r *core.Report, report bool) *resultLocks {
 		}
 	}
 	for _, m := range methods {
-		recv := "$" + m.Params[0].Name()
+		recv := an.ParamDesc(m.Params[0])
 		for _, call := range an.AllCalls(m) {
 			t := an.Callee(call)
 			if t == nil || rl.acquires[t] == nil || len(call.Common().Args) == 0 {
